@@ -49,7 +49,7 @@ Proof.
     destruct (r_term st); [reflexivity|].
     destruct (r_flags st) as [f|]; [|brk].
     destruct (r_cbd st) as [c|]; [|apply next_meta_atomic].
-    generalize (cbd_batch d f c limit false (stream st)); intros cb.
+    generalize (cbd_batch d f (total_bits st) c limit false (stream st)); intros cb.
     destruct cb as [[[[xs fin] c'] s']|k|]; try reflexivity.
     destruct (is_nil xs); [|discriminate].
     destruct fin; [|reflexivity].
@@ -184,7 +184,7 @@ Proof.
   generalize (read_header d (r_bit st) (stream st)); intros r.
   destruct (r_flags st) as [f|]; [|brk].
   destruct (r_cbd st) as [c|]; [|apply next_meta_term; exact T].
-  generalize (cbd_batch d f c limit false (stream st)); intros cb.
+  generalize (cbd_batch d f (total_bits st) c limit false (stream st)); intros cb.
   destruct cb as [[[[xs fin] c'] s']|k|]; cbn [fst snd]; try congruence.
   destruct (is_nil xs); cbn [fst snd r_term]; [|congruence].
   destruct fin; cbn [fst snd]; [|congruence].
@@ -294,7 +294,7 @@ Proof. unfold Nlen. rewrite skipn_length. lia. Qed.
 Theorem free_remaining_unchanged d st :
   let st' := fst (r_step d st RFree) in
   total_bits st' - r_bit st' = total_bits st - r_bit st /\
-  r_bit st' mod 8 = r_bit st mod 8.
+  r_bit st' mod 64 = r_bit st mod 64.
 Proof.
   cbn [r_step fst]. unfold total_bits. cbn [r_bit r_bytes].
   rewrite Nlen_skipn.
@@ -336,7 +336,7 @@ Proof.
     destruct (r_term st); [exact P|].
     destruct (r_flags st) as [f|]; [|brk; pos_fin].
     destruct (r_cbd st) as [c|]; [|apply next_meta_pos_ok; exact P].
-    generalize (cbd_batch d f c limit false (stream st)); intros cb.
+    generalize (cbd_batch d f (total_bits st) c limit false (stream st)); intros cb.
     destruct cb as [[[[xs fin] c'] s']|k|]; try exact P.
     destruct (is_nil xs); [|pos_fin].
     destruct fin; [|exact P].
@@ -572,52 +572,145 @@ Qed.
 Lemma read_code_len ps s p r : read_code ps s = Ok (p, r) -> (length r <= length s)%nat.
 Proof. unfold read_code. intros H. inv. rewrite skipn_length. lia. Qed.
 
+Lemma read_code_at_len tb ps s p r :
+  read_code_at tb ps s = Ok (p, r) -> (length r <= length s)%nat.
+Proof.
+  unfold read_code_at. intros H.
+  destruct (tsearch 33 tb ps 0 s) as [q|k|]; cbn [bind] in H; try discriminate.
+  destruct (Nat.leb (length (p_code q)) (length s)); [|discriminate].
+  inversion H; subst; clear H. rewrite skipn_length. lia.
+Qed.
+
 Ltac lenH H ::= first
   [ apply get_len in H | apply get1_len in H | apply get_bits_len in H
   | apply read_aligned_len in H | apply parse_flags_len in H | apply read_header_len in H
   | apply read_num_len in H | apply read_unum_len in H | apply read_moments_len in H
   | apply read_gcd_len in H | apply read_prefixes_len in H | apply drain_pad_len in H
   | apply read_offset_len in H | apply read_offsets_len in H | apply read_varint_len in H
-  | apply read_code_len in H ].
+  | apply read_code_len in H | apply read_code_at_len in H ].
 
-Lemma read_blocks_len w ps fuel : forall room s l r inc st,
-  read_blocks fuel w ps room s = (l, r, inc, st) -> (length r <= length s)%nat.
+Lemma read_blocks_len w tb ps fuel : forall room s l r inc st,
+  read_blocks fuel w tb ps room s = (l, r, inc, st) -> (length r <= length s)%nat.
 Proof.
   induction fuel as [|fuel IH]; intros room s l r inc st H; cbn [read_blocks] in H.
   - inv. lia.
   - inv; try lia;
-    repeat match goal with H : read_blocks _ _ _ _ _ = _ |- _ => apply IH in H end;
+    repeat match goal with H : read_blocks _ _ _ _ _ _ = _ |- _ => apply IH in H end;
     lens; lia.
 Qed.
 
-Lemma read_batch_len w ps n_left inc limit eoi s :
-  (length (b_rest (read_batch w ps n_left inc limit eoi s)) <= length s)%nat.
+Lemma read_batch_len w tb ps n_left inc limit eoi s :
+  (length (b_rest (read_batch w tb ps n_left inc limit eoi s)) <= length s)%nat.
 Proof.
   unfold read_batch. cbv zeta beta.
   repeat match goal with
   | |- context [match ?x with _ => _ end] => destruct x eqn:?
   end; cbn [b_rest];
-  repeat match goal with H : read_blocks _ _ _ _ _ = _ |- _ => apply read_blocks_len in H end;
+  repeat match goal with H : read_blocks _ _ _ _ _ _ = _ |- _ => apply read_blocks_len in H end;
   lens; lia.
 Qed.
 
-Lemma nd_batch_len w c limit eoi s us fin nd' r :
-  nd_batch w c limit eoi s = Ok (us, fin, nd', r) -> (length r <= length s)%nat.
+Lemma nd_batch_len w tb c limit eoi s us fin nd' r :
+  nd_batch w tb c limit eoi s = Ok (us, fin, nd', r) -> (length r <= length s)%nat.
 Proof.
   unfold nd_batch. intros H. cbv zeta in H.
-  pose proof (read_batch_len w (c_table c) (c_n c - nd_nproc (c_nd c))
+  pose proof (read_batch_len w tb (c_table c) (c_n c - nd_nproc (c_nd c))
                 (nd_incomplete (c_nd c)) limit eoi s) as B.
-  set (out := read_batch _ _ _ _ _ _ _) in *. clearbody out.
+  set (out := read_batch _ _ _ _ _ _ _ _) in *. clearbody out.
   inv; lens; lia.
 Qed.
 
-Lemma cbd_batch_len d f c limit eoi s xs fin c' r :
-  cbd_batch d f c limit eoi s = Ok (xs, fin, c', r) -> (length r <= length s)%nat.
+Lemma cbd_batch_len d f tb c limit eoi s xs fin c' r :
+  cbd_batch d f tb c limit eoi s = Ok (xs, fin, c', r) -> (length r <= length s)%nat.
 Proof.
   unfold cbd_batch. intros H.
-  destruct (nd_batch (ubits (pdt f d)) c limit eoi s) as [[[[us fin0] nd'] s1]|k|] eqn:E;
+  destruct (nd_batch (ubits (pdt f d)) tb c limit eoi s) as [[[[us fin0] nd'] s1]|k|] eqn:E;
     cbn [bind] in H; try discriminate.
   apply nd_batch_len in E. inv; lia.
+Qed.
+
+(* ---- the Huffman lookup depends on the held-bit count only through the word
+        alignment of the position ---- *)
+
+Definition cong64 (tb1 tb2 : N) (n : nat) : Prop :=
+  N.of_nat n <= tb1 /\ N.of_nat n <= tb2 /\ tb1 mod 64 = tb2 mod 64.
+
+Lemma cong64_le tb1 tb2 n m : cong64 tb1 tb2 n -> (m <= n)%nat -> cong64 tb1 tb2 m.
+Proof. unfold cong64. intros (A&B&C) L. repeat split; try lia. Qed.
+
+Lemma cong64_pos tb1 tb2 (s : bits) :
+  cong64 tb1 tb2 (length s) -> (tb1 - Nlen s) mod 64 = (tb2 - Nlen s) mod 64.
+Proof. unfold cong64, Nlen. intros (A&B&C). lia. Qed.
+
+Lemma tsearch_cong tb1 tb2 : forall fuel cands dpt s,
+  cong64 tb1 tb2 (length s) ->
+  tsearch fuel tb1 cands dpt s = tsearch fuel tb2 cands dpt s.
+Proof.
+  induction fuel as [|fuel IH]; intros cands dpt s C.
+  - destruct cands as [|p [|q l]]; reflexivity.
+  - pose proof (cong64_pos tb1 tb2 s C) as E.
+    destruct cands as [|p [|q l]]; cbn [tsearch]; try reflexivity; cbv zeta; rewrite E;
+      repeat destr_if; try reflexivity;
+      apply IH; (eapply cong64_le; [exact C|rewrite skipn_length; lia]).
+Qed.
+
+Lemma read_code_at_cong tb1 tb2 ps s :
+  cong64 tb1 tb2 (length s) -> read_code_at tb1 ps s = read_code_at tb2 ps s.
+Proof. intros C. unfold read_code_at. rewrite (tsearch_cong tb1 tb2 33 ps 0 s C). reflexivity. Qed.
+
+Lemma read_blocks_cong w tb1 tb2 ps : forall fuel room s,
+  cong64 tb1 tb2 (length s) ->
+  read_blocks fuel w tb1 ps room s = read_blocks fuel w tb2 ps room s.
+Proof.
+  induction fuel as [|fuel IH]; intros room s C; [reflexivity|].
+  cbn [read_blocks]. rewrite (read_code_at_cong tb1 tb2 ps s C).
+  destruct (room =? 0); [reflexivity|].
+  destruct (read_code_at tb2 ps s) as [[p s1]|k|] eqn:E1; try reflexivity.
+  apply read_code_at_len in E1.
+  destruct (p_jump p) as [j|].
+  - destruct (read_varint j s1) as [[v s2]|k|] eqn:E2; try reflexivity.
+    apply read_varint_len in E2. cbv zeta.
+    destruct (read_offsets w p (N.to_nat (N.min (v + 1) room)) s2) as [[l s3] st] eqn:E3.
+    apply read_offsets_len in E3.
+    destruct st; try reflexivity.
+    destruct (room <? v + 1); [reflexivity|].
+    rewrite (IH (room - N.min (v + 1) room) s3); [reflexivity|].
+    eapply cong64_le; [exact C|lia].
+  - destruct (read_offsets w p 1 s1) as [[l s2] st] eqn:E3.
+    apply read_offsets_len in E3.
+    destruct st; try reflexivity.
+    rewrite (IH (room - 1) s2); [reflexivity|].
+    eapply cong64_le; [exact C|lia].
+Qed.
+
+Lemma read_batch_cong w tb1 tb2 ps n_left inc limit eoi s :
+  cong64 tb1 tb2 (length s) ->
+  read_batch w tb1 ps n_left inc limit eoi s = read_batch w tb2 ps n_left inc limit eoi s.
+Proof.
+  intros C. unfold read_batch. cbv zeta.
+  destruct (N.min n_left limit =? 0); [reflexivity|].
+  destruct inc as [[p remaining]|].
+  - destruct (read_offsets w p (N.to_nat (N.min remaining (N.min n_left limit))) s)
+      as [[l s1] st] eqn:E.
+    apply read_offsets_len in E.
+    destruct st; try reflexivity.
+    rewrite (read_blocks_cong w tb1 tb2 ps _ _ s1); [reflexivity|].
+    eapply cong64_le; [exact C|lia].
+  - rewrite (read_blocks_cong w tb1 tb2 ps _ _ s C). reflexivity.
+Qed.
+
+Lemma nd_batch_cong w tb1 tb2 c limit eoi s :
+  cong64 tb1 tb2 (length s) ->
+  nd_batch w tb1 c limit eoi s = nd_batch w tb2 c limit eoi s.
+Proof.
+  intros C. unfold nd_batch. rewrite (read_batch_cong w tb1 tb2 _ _ _ _ _ s C). reflexivity.
+Qed.
+
+Lemma cbd_batch_cong d f tb1 tb2 c limit eoi s :
+  cong64 tb1 tb2 (length s) ->
+  cbd_batch d f tb1 c limit eoi s = cbd_batch d f tb2 c limit eoi s.
+Proof.
+  intros C. unfold cbd_batch. rewrite (nd_batch_cong _ tb1 tb2 c limit eoi s C). reflexivity.
 Qed.
 
 (* ------------------------------------------------------------------ *)
@@ -626,7 +719,7 @@ Qed.
 
 Definition same_view (st1 st2 : rstate) : Prop :=
   stream st1 = stream st2 /\
-  r_bit st1 mod 8 = r_bit st2 mod 8 /\
+  r_bit st1 mod 64 = r_bit st2 mod 64 /\
   r_flags st1 = r_flags st2 /\
   r_cbd st1 = r_cbd st2 /\
   r_term st1 = r_term st2 /\
@@ -714,6 +807,14 @@ Lemma read_chunk_meta_mod d f b1 b2 s :
   b1 mod 8 = b2 mod 8 -> read_chunk_meta d f b1 s = read_chunk_meta d f b2 s.
 Proof. intros H. unfold read_chunk_meta. rewrite (read_aligned_mod b1 b2 1 s H). reflexivity. Qed.
 
+Lemma same_view_cong st1 st2 :
+  same_view st1 st2 -> pos_ok st1 -> pos_ok st2 ->
+  cong64 (total_bits st2) (total_bits st1) (length (stream st1)).
+Proof.
+  intros (Hs&Hm&Hf&Hc&Ht&Hr) P1 P2. rewrite stream_len. unfold cong64, pos_ok in *.
+  repeat split; lia.
+Qed.
+
 Definition sim_res (r1 r2 : rstate * rout) : Prop :=
   snd r1 = snd r2 /\ same_view (fst r1) (fst r2).
 
@@ -721,7 +822,8 @@ Lemma next_meta_sim d st1 st2 f :
   same_view st1 st2 -> pos_ok st1 -> pos_ok st2 ->
   sim_res (next_meta d st1 f) (next_meta d st2 f).
 Proof.
-  intros V P1 P2. pose proof V as (Hs&Hm&Hf&Hc&Ht&Hr).
+  intros V P1 P2. pose proof V as (Hs&Hm64&Hf&Hc&Ht&Hr).
+  assert (Hm : r_bit st1 mod 8 = r_bit st2 mod 8) by lia.
   unfold next_meta. rewrite <- Hs, <- Hf, <- Ht.
   rewrite (read_chunk_meta_mod d f (r_bit st2) (r_bit st1)) by (symmetry; exact Hm).
   destruct (read_chunk_meta d f (r_bit st1) (stream st1)) as [[[m|] s']|k|] eqn:E.
@@ -738,7 +840,8 @@ Lemma r_step_sim d st1 st2 o :
   same_view st1 st2 -> pos_ok st1 -> pos_ok st2 ->
   sim_res (r_step d st1 o) (r_step d st2 o).
 Proof.
-  intros V P1 P2. pose proof V as (Hs&Hm&Hf&Hc&Ht&Hr).
+  intros V P1 P2. pose proof V as (Hs&Hm64&Hf&Hc&Ht&Hr).
+  assert (Hm : r_bit st1 mod 8 = r_bit st2 mod 8) by lia.
   destruct o; unfold r_step, set_pos.
   - (* RWrite *)
     split; [reflexivity|cbn [fst]].
@@ -776,7 +879,9 @@ Proof.
     destruct (r_term st1); [split; [reflexivity|exact V]|].
     destruct (r_flags st1) as [f|]; [|split; [reflexivity|exact V]].
     destruct (r_cbd st1) as [c|]; [|split; [reflexivity|exact V]].
-    destruct (cbd_batch d f c (pow2 64 - 1) true (stream st1)) as [[[[xs fin] c'] s']|k|] eqn:E;
+    rewrite (cbd_batch_cong d f (total_bits st2) (total_bits st1) c _ _ (stream st1))
+      by (apply same_view_cong; assumption).
+    destruct (cbd_batch d f (total_bits st1) c (pow2 64 - 1) true (stream st1)) as [[[[xs fin] c'] s']|k|] eqn:E;
       (split; [reflexivity|cbn [fst]]); try exact V.
     apply cbd_batch_len in E. apply advance_view; assumption.
   - (* RSkip *)
@@ -796,7 +901,9 @@ Proof.
     destruct (r_term st1) eqn:T; [split; [reflexivity|exact V]|].
     destruct (r_flags st1) as [f|] eqn:F.
     + destruct (r_cbd st1) as [c|] eqn:C; [|apply next_meta_sim; assumption].
-      destruct (cbd_batch d f c limit false (stream st1)) as [[[[xs fin] c'] s']|k|] eqn:E;
+      rewrite (cbd_batch_cong d f (total_bits st2) (total_bits st1) c _ _ (stream st1))
+        by (apply same_view_cong; assumption).
+      destruct (cbd_batch d f (total_bits st1) c limit false (stream st1)) as [[[[xs fin] c'] s']|k|] eqn:E;
         try (split; [reflexivity|exact V]).
       apply cbd_batch_len in E.
       destruct (is_nil xs).
@@ -854,7 +961,7 @@ Proof.
   unfold r_step. intros H.
   destruct (r_term st); [discriminate|]. destruct (r_flags st) as [f|]; [|discriminate].
   destruct (r_cbd st) as [c|]; [|discriminate].
-  destruct (cbd_batch d f c (pow2 64 - 1) true (stream st)) as [[[[xs' fin] c'] s']|k|] eqn:E;
+  destruct (cbd_batch d f (total_bits st) c (pow2 64 - 1) true (stream st)) as [[[[xs' fin] c'] s']|k|] eqn:E;
     try discriminate.
   apply cbd_batch_len in E. inversion H; subst; clear H.
   rewrite pos_after_stream_len by exact E. exact E.
